@@ -147,10 +147,10 @@ def line_of(spec):
 
 
 def generate(rng, tier):
-    n = 4000 if tier == 'quick' else 60000
+    n = 4000 if tier == 'quick' else 250000
     # dt_bump self-test of the local model (every unit letter, both signs, compounds)
     lines = []
-    for _ in range(400 if tier == 'quick' else 8000):
+    for _ in range(400 if tier == 'quick' else 30000):
         u = rng.choice('dbwmqyhns')
         t = rand_start(rng, u in 'mqy' or rng.random() < 0.5, dom28=u in 'mqy')
         s = '%d%s' % (rng.choice([1, -1, 2, -2, 3, 5, -7, 12, -13, 0, 26, -40]), u) if rng.random() < 0.8 else rng.choice(COMPOUNDS)
@@ -249,7 +249,7 @@ def _laws(rng, tier, ctx):
     import pyg_base
     from pyg_base import drange, dt_bump
     count = 0
-    for _ in range(2500 if tier == 'quick' else 30000):
+    for _ in range(2500 if tier == 'quick' else 120000):
         spec = rand_spec(rng)
         kind, t0, t1, bump = spec['kind'], spec['t0'], spec['t1'], spec['bump']
         case = dict(tag='law-' + kind, lines=[line_of(spec)])
